@@ -16,8 +16,9 @@ import vbuild  # noqa: E402
 from vbuild import VERIF, REPO, CACHE, OBJ  # noqa: E402
 
 SYMX = os.path.join(CACHE, "symx")
-EVID = os.path.join(VERIF, "evidence")
-REPLAYS = os.path.join(VERIF, "replays")
+OUTROOT = os.environ.get("VERIF_OUT", VERIF)  # development: seeded-fault runs write their evidence/replays elsewhere
+EVID = os.path.join(OUTROOT, "evidence")
+REPLAYS = os.path.join(OUTROOT, "replays")
 KNOWN = os.path.join(VERIF, "known_findings.jsonl")
 EXIT_OK, EXIT_VIOLATION, EXIT_HARNESS = 0, 1, 3
 
